@@ -100,6 +100,21 @@ func c12Check(s *stack.Snapshot, level stack.Similarity) (late bool, err error) 
 		if b.Locked != locked {
 			return late, fmt.Errorf("%s: locked shown %v, OR over members is %v", where, b.Locked, locked)
 		}
+		// What is presented: the text of a frame's arguments (Args.String(), which the console
+		// and the HTML use) must not be one member's own text when members differ there.
+		for ci := range b.Stack.Calls {
+			shown := b.Stack.Calls[ci].Args.String()
+			texts := map[string]bool{}
+			for _, m := range members {
+				texts[m.Stack.Calls[ci].Args.String()] = true
+			}
+			if len(texts) > 1 && texts[shown] {
+				return late, fmt.Errorf("%s: frame %d presents the arguments %q, which are those of only some members (members show %d different texts)", where, ci, shown, len(texts))
+			}
+			if len(texts) == 1 && !texts[shown] && len(members) == 1 {
+				return late, fmt.Errorf("%s: frame %d presents %q but its only member shows something else", where, ci, shown)
+			}
+		}
 		// Per scalar argument position.
 		mArgs := make([][]*stack.Arg, len(members))
 		for i, m := range members {
@@ -223,8 +238,25 @@ func c12Universe() []GM {
 }
 
 type c12UniCase struct {
-	Seq    []int
-	Naming bool
+	Seq       []int
+	Naming    bool
+	Processed bool // members carry source-augmented argument text (Args.Processed)
+}
+
+// withProcessed gives every call the typed rendering a source analysis would produce.
+func withProcessed(gs []*stack.Goroutine) []*stack.Goroutine {
+	var out []*stack.Goroutine
+	for _, g := range gs {
+		g = cloneGoroutine(g)
+		for ci := range g.Stack.Calls {
+			a := &g.Stack.Calls[ci].Args
+			for vi := range a.Values {
+				a.Processed = append(a.Processed, "T("+a.Values[vi].String()+")")
+			}
+		}
+		out = append(out, g)
+	}
+	return out
 }
 
 var c12Uni [2][]*stack.Goroutine
@@ -251,7 +283,11 @@ func c12Members(naming bool) []*stack.Goroutine {
 var c12UniCheck = Check[c12UniCase]{
 	Prop: "C12", Name: "universe",
 	Oracle: func(c c12UniCase) error {
-		s := assemble(c12Members(c.Naming), c.Seq, nil, 0)
+		members := c12Members(c.Naming)
+		if c.Processed {
+			members = withProcessed(members)
+		}
+		s := assemble(members, c.Seq, nil, 0)
 		for _, l := range allLevels {
 			if _, err := c12Check(s, l); err != nil {
 				return err
@@ -271,8 +307,9 @@ func TestC12(t *testing.T) {
 	u := c12Universe()
 	var cnt, nt int64
 	forEachTuple(len(u), 4, func(idx int, seq []int) {
-		for _, naming := range []bool{false, true} {
-			if !c12UniCheck.Each(t, c12UniCase{Seq: append([]int{}, seq...), Naming: naming}) {
+		for v := 0; v < 3; v++ {
+			naming, processed := v == 1, v == 2
+			if !c12UniCheck.Each(t, c12UniCase{Seq: append([]int{}, seq...), Naming: naming, Processed: processed}) {
 				return
 			}
 			cnt++
@@ -283,7 +320,7 @@ func TestC12(t *testing.T) {
 	})
 	st.count(cnt, nt)
 	st.class("universe_sequences", cnt)
-	st.exhaustive(fmt.Sprintf("all ordered sequences (every arrival order) of 1..4 members over %d variants differing in one argument position (top level, nesting depth 1..3), sleep, lock, too-large; naming off and on; x 4 levels", len(u)), cnt)
+	st.exhaustive(fmt.Sprintf("all ordered sequences (every arrival order) of 1..4 members over %d variants differing in one argument position (top level, nesting depth 1..3), sleep, lock, too-large; naming off, naming on, and with source-augmented argument text; x 4 levels", len(u)), cnt)
 	st.sample(map[string]any{"universe_sequence": []int{0, 0, 6, 9}, "naming": true})
 	a := c12Rand
 	a.Checks = n(2500, 60000)
